@@ -421,7 +421,7 @@ static void scPlanner(const std::string &which, tse::Out &out)
 // (compiled with -DSCEN_C03 into c03_threads): the termination condition first fires at evaluation k+1 (counted over ALL threads of
 // the planner), for every k up to the cap, then the search is resumed, cleared and interrupted again; C03's clauses are checked
 // after every call, in every schedule with <= P preemptions.
-static void scInterrupt(const std::string &planner, const std::string &map, int k, tse::Out &out)
+static void scInterrupt(const std::string &planner, const std::string &map, int k, tse::Out &out, const std::string &prop = "C03", bool fullHistory = true)
 {
     vw::Cfg c;
     c.planner = "RRT";  // Problem's own planner slot (unused)
@@ -467,16 +467,18 @@ static void scInterrupt(const std::string &planner, const std::string &map, int 
         long extra = firstTrue.load() < 0 ? 0 : calls.load() - firstTrue.load();
         auto fail = [&](const std::string &kx, const std::string &w) {
             std::string kk = kx;
-            if (kk.substr(0, 4) == "C01|")
-                kk = "C03|threaded|" + kk.substr(4);
+            if (kk.substr(0, 4) == "C01|" || kk.substr(0, 4) == "C03|")
+                kk = prop + "|threaded|" + kk.substr(kk.substr(0, 13) == "C03|threaded|" ? 13 : 4);
             out.fail(kk, w + " [k=" + std::to_string(k) + ", step " + step + "]");
         };
-        if (extra > 60)
+        if (extra > 60 && prop == "C03")
             fail("C03|threaded|late-return|" + planner, "solve() evaluated the termination condition " + std::to_string(extra) + " more times after it first became true");
         vo::checkStatus(*P, st, before, planner, fail);
         for (auto &sol : P->pdef->getSolutions())
             vo::checkSolution(*P, sol, flags, planner, fail);
-        if (hadTop && P->pdef->getSolutionCount() > 0)
+        if (prop != "C03")
+            ;  // the resume clauses are C03's
+        else if (hadTop && P->pdef->getSolutionCount() > 0)
         {
             ob::PlannerSolution top = P->pdef->getSolutions()[0];
             bool worse = (!topBefore.approximate_ && top.approximate_) ||
@@ -503,9 +505,12 @@ static void scInterrupt(const std::string &planner, const std::string &map, int 
     };
     solve(k, "interrupt");
     solve(k + 25, "resume");
-    pl->clear();
-    P->pdef->clearSolutionPaths();
-    solve(k, "clear+interrupt");
+    if (fullHistory)
+    {
+        pl->clear();
+        P->pdef->clearSolutionPaths();
+        solve(k, "clear+interrupt");
+    }
     out.obs = obs;
     pl.reset();
     P->planner.reset();
@@ -604,6 +609,45 @@ static std::vector<Scenario> jobScenarios(const std::string &job, bool thorough)
     // CForest: quick explores the non-preemptive schedules (every choice at blocking points), thorough adds one preemption
     for (int k : ks)
         v.push_back({job + "-k" + std::to_string(k), [pl, m, k](tse::Out &o) { scInterrupt(pl, m, k, o); }, false, heavy ? 0 : 1, heavy ? 1 : 2, heavy ? 2000 : 1500});
+    return v;
+}
+static bool findScenario(const std::string &name, Scenario &sc)
+{
+    size_t p = name.rfind("-k");
+    if (p == std::string::npos)
+        return false;
+    for (auto &s : jobScenarios(name.substr(0, p), true))
+        if (s.name == name)
+        {
+            sc = s;
+            return true;
+        }
+    for (auto &s : jobScenarios(name.substr(0, p), false))
+        if (s.name == name)
+        {
+            sc = s;
+            return true;
+        }
+    return false;
+}
+#elif defined(SCEN_C01)
+// C01's path oracle for the always-multi-threaded planners: budgets x schedules
+static const char *PROP = "C01";
+static std::vector<std::string> jobNames()
+{
+    std::vector<std::string> j;
+    for (const char *pl : {"PRM", "PRMstar", "SPARS", "SPARStwo"})
+        for (const char *m : {"wallgap4", "enclosed4", "diag4"})
+            j.push_back(std::string(pl) + "-" + m);
+    return j;
+}
+static std::vector<Scenario> jobScenarios(const std::string &job, bool thorough)
+{
+    std::vector<Scenario> v;
+    std::string pl = job.substr(0, job.find('-')), m = job.substr(job.find('-') + 1);
+    std::vector<int> ks = thorough ? std::vector<int>{3, 8, 13, 21, 34, 55} : std::vector<int>{8, 34};
+    for (int k : ks)
+        v.push_back({job + "-k" + std::to_string(k), [pl, m, k](tse::Out &o) { scInterrupt(pl, m, k, o, "C01", false); }, false, 1, 2, 2500});
     return v;
 }
 static bool findScenario(const std::string &name, Scenario &sc)
